@@ -60,6 +60,11 @@ class Interp(CoreMixin, ExprMixin, StmtMixin, CallMixin):
         self._nested_classes = {}
         self._class_env = {}
         self._loop_depth = 0
+        self._cur_fn = None
+        self.watch_locals = set()
+        self.kept_locals = {}
+        self.watch_calls = set()
+        self.call_log = []
         self.undefined = self.g.mk("Undefined")
         try:
             self.schema = Schema(self.prog)
